@@ -122,6 +122,12 @@ def check_case(case):
   sel_full = built.selector
   spellings = {'full': sel_full, 'short': '.'.join(sel_full.split('.')[1:])}
 
+  if shape.get('also_as') and shape['kind'] == 'function' and shape['api'] != 'configurable':
+    # bindings of the *other* registration of the same function object never reach this one
+    first_sel = sel_full.rsplit('.', 1)[0] + '.' + shape['also_as']
+    for p in G.named_params(shape) + (G.EXTRA[:1] if shape['varkw'] else []):
+      gin.bind_parameter(('', first_sel, p), 'FIRST:' + p)
+    labels.add('same-object-registered-under-two-names')
   # ---- make the bindings --------------------------------------------------------------
   model = {}
   # bindings may be made while some unrelated config scope is active: the scope a binding belongs
@@ -163,8 +169,21 @@ def check_case(case):
       except (ValueError, TypeError):
         pass
     labels.add('failed-scope-entry-before-calls')
+  captured = None
+  if case.get('capture'):
+    # a scope captured at a nested level (`with gin.config_scope(...) as s`) and entered again
+    # later as an explicit list: the whole scope, not just its innermost part
+    outer, inner = case['capture']
+    with gin.config_scope(outer):
+      with gin.config_scope(inner) as captured:
+        pass
+    labels.add('enter:captured-nested-scope')
   with contextlib.ExitStack() as es:
-    for entry in case['entries']:
+    for entry in case['entries'] + ([captured] if captured is not None else []):
+      if entry is captured and captured is not None:
+        es.enter_context(gin.config_scope(captured))
+        stack.enter((case['capture'][0] + '/' + case['capture'][1]).split('/'))
+        continue
       es.enter_context(gin.config_scope(entry))
       stack.enter(entry)
       labels.add('enter:' + ('list' if isinstance(entry, list) else
@@ -317,15 +336,20 @@ FALSY = [0, None, False, '', [], {}, 0.0]
 
 @st.composite
 def strategy(draw):
-  shape = draw(G.shapes(kinds=('function', 'function', 'class_init', 'class_new', 'method', 'method',
-                               'callobj', 'boundmethod')))
+  shape = draw(G.shapes(kinds=('function', 'function', 'class_init', 'class_new', 'class_new', 'method',
+                               'method', 'callobj', 'boundmethod')))
   if shape['kind'] in ('callobj', 'boundmethod') and shape['api'] == 'configurable':
     shape['api'] = 'external'
   if shape['kind'] == 'method' and draw(st.booleans()):
     shape['later_sibling'] = True
+  if shape['kind'] == 'function' and shape['api'] != 'configurable' and draw(st.integers(0, 2)) == 0:
+    shape['also_as'] = 'c01first'       # the same function object, registered under this name first
   entries = draw(st.lists(_entry, min_size=0, max_size=4))
+  capture = None
+  if draw(st.integers(0, 5)) == 0:
+    capture = [draw(st.sampled_from(SCOPE_NAMES)), draw(st.sampled_from(SCOPE_NAMES + ['s/t']))]
   stack = M.ScopeStack()
-  for e in entries:
+  for e in entries + ([(capture[0] + '/' + capture[1]).split('/')] if capture else []):
     stack.enter(e)
   active = stack.current
   pool = G.named_params(shape) + (G.EXTRA if shape['varkw'] else [])
@@ -382,7 +406,7 @@ def strategy(draw):
   if pool and draw(st.integers(0, 3)) == 0:
     poison = [draw(scope_st), draw(st.sampled_from([focus]) | st.sampled_from(pool))]
   return {'shape': shape, 'entries': entries, 'bindings': bindings, 'calls': calls,
-          'poison': poison,
+          'poison': poison, 'capture': capture,
           'finalize': draw(st.integers(0, 2)) == 0,
           'bind_ambient': draw(st.sampled_from(['', '', 's', 'zz/t'])),
           'failed_entry': draw(st.integers(0, 3)) == 0}
